@@ -289,7 +289,8 @@ def r4_dispatch(ctx):
     headers = ctx.ce.module_const(N.TOKENS, 'HEADERS')
     for h in sorted(headers):
         end, val, sp = table.get(h, table[Ellipsis])
-        explicit = h in table and table[h][2] is not table[Ellipsis][2]
+        explicit = h in table and (table[h][2] is not table[Ellipsis][2] or (
+            table[h][1] is not None and table[Ellipsis][1] is not None and src(table[h][1]) != src(table[Ellipsis][1])))
         ctx.check(explicit, 'R4', fi.loc, fi.qualname, f'dispatch-covers-header:{h}',
                   f'supported header {h} has its own dispatch branch', f'supported header {h} falls to the default importer')
     b = ctx.prog.resolve(ctx.prog.module('kernpy'), 'createImporter')
